@@ -4,16 +4,20 @@
 Handlers fetch the object of a session with `BlobSession` and call `Write`, `Verify`, `Close`, `Cancel` on it without
 a lock of their own, so two requests that address one session work on the same object and *every* call sequence on one
 object is reachable.  The model is the object as those methods define it: accepted chunks (ids), whether the session
-has ended (removed from the repository's session set), and what has been published into the blob store under the
-digest of its bytes.  `dir = true` is the directory store (its `Close` renames the temporary file, which is gone once
-the session has ended), `false` the memory store (its `Close` publishes the buffer whatever the state of the session).
+has ended (removed from the repository's session set), whether the temporary file has been closed (directory store),
+the digest the session was pinned to when it was opened (`BlobWithDigest`, here: the content whose digest it is), and
+what has been published into the blob store under the digest of its bytes.  `dir = true` is the directory store (its
+`Close` closes and renames the temporary file, which a cancelled or once-closed session no longer has), `false` the
+memory store (its `Close` publishes the buffer whatever the state of the session).
 -/
 namespace Sess
 
 inductive Op
   | w (c : Nat)      -- Write of a chunk
   | vbad             -- Verify against a digest the content does not have
-  | close            -- Verify against the digest of the accepted bytes, then Close
+  | vgood            -- Verify against the digest of the accepted bytes
+  | close            -- Verify against the digest of the accepted bytes, then (if that passed) Close: what the handler does
+  | closeRaw         -- Close without a Verify before it
   | cancel
   deriving DecidableEq, Repr
 
@@ -21,20 +25,33 @@ inductive Out | ok | err
   deriving DecidableEq, Repr
 
 structure S where
+  pin : Option (List Nat) := none      -- the content whose digest the session is pinned to
   ended : Bool := false
+  fclosed : Bool := false              -- directory store: the temporary file is closed (and gone unless it was renamed)
   written : List Nat := []             -- chunks accepted, in order
   published : List (List Nat) := []    -- contents published by this object (each under the digest of its bytes)
   deriving DecidableEq, Repr
 
 def publish (s : S) : S := if s.published.contains s.written then s else { s with published := s.published ++ [s.written] }
 
+/-- the pinned-digest check of `Verify` and `Close` -/
+def pinOk (s : S) : Bool := match s.pin with | none => true | some p => p == s.written
+
+def closeRaw (dir : Bool) (s : S) : S × Out :=
+  if dir then
+    if s.fclosed then (s, .err)                                        -- the file handle is closed already
+    else if !pinOk s then ({ s with fclosed := true }, .err)           -- file closed and removed, the session stays in the set
+    else (publish { s with fclosed := true, ended := true }, .ok)
+  else
+    if !pinOk s then (s, .err) else (publish { s with ended := true }, .ok)
+
 def step (dir : Bool) (s : S) : Op → S × Out
-  | .w c => if s.ended then (s, .err) else ({ s with written := s.written ++ [c] }, .ok)
+  | .w c => if s.ended ∨ (dir ∧ s.fclosed) then (s, .err) else ({ s with written := s.written ++ [c] }, .ok)
   | .vbad => (s, .err)
-  | .close =>
-    if s.ended then (if dir then (s, .err) else (publish s, .ok))
-    else (publish { s with ended := true }, .ok)
-  | .cancel => ({ s with ended := true }, .ok)
+  | .vgood => (s, if pinOk s then .ok else .err)
+  | .close => if pinOk s then closeRaw dir s else (s, .err)
+  | .closeRaw => closeRaw dir s
+  | .cancel => ({ s with ended := true, fclosed := s.fclosed || dir }, .ok)
 
 def run (dir : Bool) (s : S) : List Op → S × List Out
   | [] => (s, [])
